@@ -31,7 +31,7 @@ def make(qa, qb, reassign, free=None):
         require(0 <= on_a <= 4 * qa)
         require(0 <= on_b <= 4 * qb)
         for v in (va1, va2, vb1, vb2):
-            require(1 <= v <= 2)
+            require(1 <= v <= 3)  # voice numbers need not be contiguous inside a part
         require(0 <= sa <= 2)  # 0 stands for "no staff"
         require(0 <= sb <= 2)
         A = S.Part("A", quarter_duration=qa)
@@ -56,7 +56,12 @@ def make(qa, qb, reassign, free=None):
         # the rescaling itself is asserted on the objects below for all symbolic values
         ref_list = None
         if sym.CONCRETE:
-            ref = must_not_raise(M.note_array_from_part_list, [A, B], _what="note_array_from_part_list")
+            # reference = score-level array of the inputs plus a tacet part of other divisions between them
+            E = S.Part("E", quarter_duration=5)
+            E.add(S.TimeSignature(4, 4), 0)
+            E.add(S.Rest(id="e", voice=1), 0, 5)
+            ref = must_not_raise(M.note_array_from_part_list, [A, E, B], _what="note_array_from_part_list")
+            # (a part without sounding notes does not take part in the common divisions)
             ref_list = [(r_["onset_div"], r_["duration_div"], r_["pitch"]) for r_ in ref]
         if reassign == "auto":
             exclude_known("KF-C15-auto-keyerror", sa == 0 or sb != 1 or vb2 != vb1)
@@ -120,6 +125,18 @@ def make_single():
         g = S.PartGroup(group_name="g")
         g.children = [A]
         check(S.merge_parts(g) is A, "a group holding one part does not return that part")
+        check(S.merge_parts([g]) is A, "a list holding a group with one part does not return that part")
+        # a list holding one group of two parts is merged like the two parts
+        B = S.Part("B", quarter_duration=3)
+        B.add(S.Note("E", 4, id="b", voice=1), 0, 3)
+        g2 = S.PartGroup(group_name="g2")
+        g2.children = [A, B]
+        m = must_not_raise(S.merge_parts, [g2], _what="merge_parts([group])")
+        check(isinstance(m, S.Part), "a list holding one group of two parts is not merged", type(m).__name__)
+        ids = sorted(n.id for n in m.notes)
+        check(ids == ["a", "b"], "merged part of a group in a list", ids)
+        na = [n for n in m.notes if n.id == "a"][0]
+        check(na.start.t == t * 3 and na.end.t == (t + 2) * 3, "rescaling to the lcm in the group case", na.start.t)
         return 0
 
     return h
@@ -141,10 +158,10 @@ MODELS = ["syminterp", "symdict", "symnp:partitura.score,partitura.utils.generic
 HARNESSES = [
     H("merge", make, _inst, models=MODELS, budget={"quick": 200, "thorough": 900},
       functions=["score.merge_parts", "score.iter_parts", "Part.note_array", "music.note_array_from_part_list", "Part.add"],
-      bounds="two parts with the listed division pairs; per part one note with symbolic onset, voice (1..2) and staff "
+      bounds="two parts with the listed division pairs; per part one note with symbolic onset, voice (1..3) and staff "
              "(none/1/2), one fixed note or rest with symbolic voice, a words direction, measure/time signature/clef; "
              "three reassign modes",
       outside="three or more parts, part groups, parts with several division values"),
-    H("single", make_single, lambda tier: [{}], budget={"quick": 60, "thorough": 60}, models=["syminterp"],
+    H("single", make_single, lambda tier: [{}], budget={"quick": 150, "thorough": 300}, models=MODELS,
       functions=["score.merge_parts (single part, list, group)"], bounds="one part, symbolic onset"),
 ]
